@@ -294,7 +294,7 @@ func c03Run(c *core.Ctx) {
 	})
 	// adversarial hand-written schema shapes: template cycles, self reference, deep nesting
 	hdr := `"parser_settings":{"version":"omni.2.1","file_format_type":"xml"}`
-	for _, td := range []string{
+	adversarial := []string{
 		`{"FINAL_OUTPUT":{"template":"A"},"A":{"template":"B"},"B":{"template":"A"}}`,
 		`{"FINAL_OUTPUT":{"template":"FINAL_OUTPUT"}}`,
 		`{"FINAL_OUTPUT":{"object":{"a":{"template":"A"}}},"A":{"object":{"b":{"template":"A"}}}}`,
@@ -308,7 +308,60 @@ func c03Run(c *core.Ctx) {
 		`{"FINAL_OUTPUT":{"xpath_dynamic":{"template":"nope"}}}`,
 		`{"FINAL_OUTPUT":{"object":{"a":{"xpath_dynamic":{"custom_func":{"name":"upper","args":[]}}}}}}`,
 		`{"FINAL_OUTPUT":{"object":{"a":{"xpath_dynamic":{"custom_func":{"name":"nope"}}}}}}`,
-	} {
+	}
+	// every declaration body that the JSON-schema validation does not look into (xpath_dynamic contents),
+	// with null / wrong-typed / dangling parts, in every context a declaration can be reached from
+	bodies := []string{
+		`{"xpath_dynamic":{"array":[null]}}`,
+		`{"xpath_dynamic":{"array":[{"const":"a"},null]}}`,
+		`{"xpath_dynamic":{"object":{"a":null}}}`,
+		`{"xpath_dynamic":{"object":{"a":{"object":{"b":null}}}}}`,
+		`{"xpath_dynamic":{"custom_func":{"name":"concat","args":[null]}}}`,
+		`{"xpath_dynamic":{"custom_func":{"name":"concat","args":[{"const":"a"},null,{"const":"b"}]}}}`,
+		`{"xpath_dynamic":{"custom_func":{"name":"concat","args":[{"custom_func":{"name":"concat","args":[null]}}]}}}`,
+		`{"xpath_dynamic":{"custom_func":{"name":"concat","args":null}}}`,
+		`{"xpath_dynamic":{"custom_func":null}}`,
+		`{"xpath_dynamic":{"custom_func":{}}}`,
+		`{"xpath_dynamic":{"custom_func":{"name":"concat","args":[{"xpath_dynamic":null}]}}}`,
+		`{"xpath_dynamic":{"xpath_dynamic":null}}`,
+		`{"xpath_dynamic":{"xpath_dynamic":{"array":[null]}}}`,
+		`{"xpath_dynamic":{"template":null}}`,
+		`{"xpath_dynamic":{"template":"nope"}}`,
+		`{"xpath_dynamic":{"template":5}}`,
+		`{"xpath_dynamic":{"const":null}}`,
+		`{"xpath_dynamic":{"const":5}}`,
+		`{"xpath_dynamic":{"const":"a","type":"nope"}}`,
+		`{"xpath_dynamic":{"external":"nope"}}`,
+		`{"xpath_dynamic":{"xpath":null}}`,
+		`{"xpath_dynamic":{"xpath":"[","object":{}}}`,
+		`{"xpath_dynamic":{"object":null}}`,
+		`{"xpath_dynamic":{"array":null}}`,
+		`{"xpath_dynamic":{"object":{"a":{"xpath":"a","xpath_dynamic":{"const":"a"}}}}}`,
+		`{"xpath_dynamic":{"const":"a","xpath":"a","object":{},"array":[],"template":"T","custom_func":{"name":"upper","args":[]}}}`,
+		`{"xpath_dynamic":{}}`,
+		`{"xpath_dynamic":{"result_type":"nope","const":"a"}}`,
+		`{"xpath_dynamic":{"const":"a","keep_empty_or_null":"x"}}`,
+	}
+	contexts := []func(b string) string{
+		func(b string) string { return `{"FINAL_OUTPUT":` + b + `}` },
+		func(b string) string { return `{"FINAL_OUTPUT":{"template":"T"},"T":` + b + `}` },
+		func(b string) string { return `{"FINAL_OUTPUT":{"object":{"k":{"template":"T"}}},"T":` + b + `}` },
+		func(b string) string { return `{"FINAL_OUTPUT":{"object":{"k":` + b + `}}}` },
+		func(b string) string { return `{"FINAL_OUTPUT":{"array":[` + b + `]}}` },
+		func(b string) string {
+			return `{"FINAL_OUTPUT":{"template":"U"},"U":{"object":{"k":{"template":"T"}}},"T":` + b + `}`
+		},
+		func(b string) string {
+			return `{"FINAL_OUTPUT":{"object":{"k":{"custom_func":{"name":"concat","args":[{"template":"T"}]}}}},"T":` + b + `}`
+		},
+		func(b string) string { return `{"FINAL_OUTPUT":{"object":{"k":{"const":"1"}}},"UNUSED":` + b + `}` },
+	}
+	for _, b := range bodies {
+		for _, cx := range contexts {
+			adversarial = append(adversarial, cx(b))
+		}
+	}
+	for _, td := range adversarial {
 		idx++
 		if !c.Mine(idx) {
 			continue
